@@ -44,6 +44,8 @@ Definition renamed (i : inst) : string := (cname (icls i) ++ "_" ++ ifile i)%str
 (* ------------------------------------------------------------------ *)
 (* Fault vocabulary of the property                                    *)
 
+(* importing the package itself fails (other than "there is no such package") *)
+Definition package_fault (p : package) : Prop := p = PkgInitFails.
 Definition import_fault (p : package) : Prop :=
   exists m, In m (scanned_modules p) /\ import_fails m = true.
 Definition ctor_fault (p : package) : Prop :=
